@@ -55,7 +55,7 @@ CHECKS = {
         "6 C14",
     ),
     "C15": (
-        "bounded-exhaustive enumeration of edit/LIST/DELETE histories over small line-number universes + proptest random long histories, against a BTreeMap reference model compared after every step",
+        "bounded-exhaustive enumeration of edit/LIST/DELETE histories over small line-number universes + proptest random long histories (incl. LOAD of generated files) + stores beyond the 64K pools, against a BTreeMap reference model compared after every step",
         "Exploration with a reference model. Small scope is complete: every history of up to 3 operations (4 in thorough) over {0,1,10,65528,65529} and {0,10,65529}, every range form including inverted ones and numbers above 65529; after each operation the whole listing, every ranged LIST and Listing::line are compared with the model. Random histories of up to 60 operations cover the full number range.",
         "Line texts are canonical so that listed text equals typed text (fidelity is C05). Longer histories only sampled.",
         "6 C15",
@@ -109,7 +109,7 @@ CHECKS = {
         "6 C17",
     ),
     "C18": (
-        "proptest-generated terminating bodies iterated in a loop with the value-stack depth sampled at every loop head through the verif-hooks probe (stateful invariant), a 70000-iteration public-API run, generated set/zero sequences against a live-variable count model, and an enumeration of 18 limit scenarios",
+        "proptest-generated terminating bodies iterated in a loop with the value-stack depth sampled at every loop head through the verif-hooks probe (stateful invariant), a 70000-iteration public-API run, generated set/zero sequences against a live-variable count model, an enumeration of 19 limit scenarios, and direct statements (110 kinds, alone and in generated lines of 1-3) typed repeatedly against valid and refused programs",
         "Exploration of the history space 'same statement sequence, any number of times': a one-value leak per iteration is visible after two iterations in the probe and after 65536 iterations without it; variable slots are compared with a count model after every assignment; every pool (value stack via GOSUB/FN/FOR/ON..GOSUB, variables, DATA, code, line length) is driven past its limit and the session must answer PRINT 1+1, NEW, a fresh program and an assignment afterwards.",
         "The probe is read-only and only used for the residue and slot counts; the long run and the limit scenarios use public events only. Abandoned FOR/GOSUB frames are legitimate stack use and are excluded by construction.",
         "6 C18",
